@@ -8,21 +8,44 @@ import (
 	"fmt"
 	"io"
 	"os"
+	"strings"
 	"sync"
 	"time"
 )
 
-// RunCase executes one case and returns its line.
+// isTimeout recognises errors that machine load alone can produce.
+func isTimeout(s string) bool {
+	for _, w := range []string{"i/o timeout", "deadline exceeded", "timeout:", "hang:", "Request Timed Out"} {
+		if strings.Contains(s, w) {
+			return true
+		}
+	}
+	return false
+}
+
+// RunCase executes one case and returns its line. A case whose library call timed out is run a
+// second time with deadlines three times as long; what that attempt shows is what is judged.
 func RunCase(c *Case) *Line {
-	var l *Line
-	done := make(chan struct{})
+	l := runOnce(c)
+	if c.Dir != "pool" && isTimeout(l.Err) {
+		c2 := *c
+		c2.slow = 3
+		l = runOnce(&c2)
+		l.Retried = true
+	}
+	return l
+}
+
+func runOnce(c *Case) *Line {
+	done := make(chan *Line, 1)
 	go func() {
-		defer close(done)
+		var l *Line
 		defer func() {
 			if p := recover(); p != nil {
 				l = newLine(c)
 				l.Harness = fmt.Sprintf("driver panic: %v", p)
 			}
+			done <- l
 		}()
 		switch c.Dir {
 		case "produce":
@@ -36,12 +59,13 @@ func RunCase(c *Case) *Line {
 			l.Harness = "unknown direction " + c.Dir
 		}
 	}()
-	limit := 60 * time.Second
+	limit := c.wait(60 * time.Second)
 	if c.Dir == "pool" {
-		limit = 20 * time.Minute
+		limit = 30 * time.Minute
 	}
+	var l *Line
 	select {
-	case <-done:
+	case l = <-done:
 	case <-time.After(limit):
 		l = newLine(c)
 		l.Err = "hang: the call did not return within " + limit.String()
